@@ -98,9 +98,9 @@ fn main() {
                 let (vexp, pexp) = if rank < 4 { (true, true) } else { (end_cmd.get_velocity().is_some(), end_cmd.get_position().is_some()) };
                 if vel.is_some() != vexp { fail("C06/velocity-presence", format!("{:?}", vel)); bad = true; break; }
                 if pos.is_some() != pexp { fail("C06/position-presence", format!("{:?}", pos)); bad = true; break; }
-                if let Some(a) = acc { if !(a.unit == MILLIMETER_PER_SECOND_SQUARED) { fail("C06/unit/acceleration", format!("{:?}", a)); bad = true; break; } }
-                if let Some(v) = vel { if !(v.unit == MILLIMETER_PER_SECOND) { fail("C06/unit/velocity", format!("{:?}", v)); bad = true; break; } }
-                if let Some(p) = pos { if !(p.unit == MILLIMETER) { fail("C06/unit/position", format!("{:?}", p)); bad = true; break; } }
+                if let Some(a) = acc { if !ueq(a.unit, MILLIMETER_PER_SECOND_SQUARED) { fail("C06/unit/acceleration", format!("{:?}", a)); bad = true; break; } }
+                if let Some(v) = vel { if !ueq(v.unit, MILLIMETER_PER_SECOND) { fail("C06/unit/velocity", format!("{:?}", v)); bad = true; break; } }
+                if let Some(p) = pos { if !ueq(p.unit, MILLIMETER) { fail("C06/unit/position", format!("{:?}", p)); bad = true; break; } }
                 // history: stamped t, command of exactly the mode, value bit-identical to the matching accessor
                 let hd = h.unwrap();
                 let m = exp_mode.unwrap();
